@@ -35,6 +35,51 @@ ALPHABET = [0x0000, 0x8080, 0x4142, 0x4100, 0xC1C2, 0x2A5C, 0x9140, 0x1952, 0x15
             0x1C20, 0x1520, 0x1940, 0x9137, 0x1937, 0x1A20]
 
 
+def _par(b):
+  return b | 0x80 if bin(b).count("1") % 2 == 0 else b
+
+
+def _w(v):
+  return "%02x%02x" % (_par((v >> 8) & 0x7F), _par(v & 0x7F))
+
+
+def rec_scc(v, dbl, pad=False):
+  """A channel-1 pop-on caption shown, the word under test on a line of its own, a second channel-1 caption, an erase."""
+  mid = " ".join([_w(0)] * (2 if dbl else 1)) if pad else " ".join([_w(v)] * (2 if dbl else 1))
+  return ("Scenarist_SCC V1.0\n\n00:00:01:00\t9420 9420 9470 9470 c1c2 c3c4 942f 942f\n\n00:00:02:00\t" + mid +
+          "\n\n00:00:03:00\t9420 9420 94d0 94d0 c5c6 942f 942f\n\n00:00:05:00\t942c 942c\n\n")
+
+
+def _doc_digest(text):
+  import ttconv.scc.reader as reader
+  import ttconv.model as m
+  try:
+    doc = reader.to_model(text)
+  except Exception as ex:  # pylint: disable=broad-except
+    return "raised " + type(ex).__name__
+  out = []
+  body = doc.get_body()
+  if body is not None:
+    for p in body.dfs_iterator():
+      if isinstance(p, m.P):
+        txt = "".join(e.get_text() if isinstance(e, m.Text) else "|" for e in p.dfs_iterator() if isinstance(e, (m.Text, m.Br)))
+        r = p.get_region()
+        out.append("%s-%s %s @%s" % (p.get_begin(), p.get_end(), txt, r.get_id() if r is not None else "-"))
+  return "; ".join(out)
+
+
+def ignored_records():
+  out = []
+  for hi in range(0x10, 0x20):
+    for lo in range(0x20, 0x80):
+      v = hi * 256 + lo
+      for dbl in (0, 1):
+        d = _doc_digest(rec_scc(v, dbl))
+        ref = _doc_digest(rec_scc(v, dbl, pad=True))
+        out.append({"kind": "ign", "v": v, "dbl": dbl, "same": 1 if d == ref else 0, "doc": d[:300], "ref": ref[:300]})
+  return out
+
+
 def colour_name(c):
   from ttconv.style_properties import NamedColors
   if c is None:
@@ -196,6 +241,16 @@ def run(ctx):
   ctx.evaluations += len(lines)
   ctx.count("disassembly_lines", len(lines))
 
+  # "... so that only channel-1 field-1 data is ever decoded": every code word (first byte 10h-1Fh) placed on a line of its
+  # own inside a channel-1 caption stream; "same" = the document equals the one read with null padding in its place
+  ign = ignored_records()
+  if any(r["ref"].startswith("raised") or "ABCD" not in r["ref"] for r in ign) or not any(r["same"] == 0 for r in ign):
+    raise T.MachineryError("the reference stream of the channel experiment is not read as two captions, or no word at all "
+                           "changes the document: the experiment observes nothing")
+  recs.extend(ign)
+  ctx.evaluations += len(ign)
+  ctx.count("words_embedded_in_a_channel_1_stream", len(ign))
+
   text = "\n".join(json.dumps(x, separators=(",", ":")) for x in recs) + "\n"
   res = T.run_tlc("Trace_Cea608Word", CFG_TRACE, workers=1, env={"TRACE_FILE": "trace.ndjson"},
                   extra_files={"trace.ndjson": text}, timeout=3000, name="trace17", java_opts=("-Xmx8g",))
@@ -206,7 +261,11 @@ def run(ctx):
   ctx.traces = len(recs)
   for _, ri, x, clause in res.values("FAIL"):
     rec = recs[ri - 1]
-    if rec["kind"] == "w":
+    if rec["kind"] == "ign":
+      ctx.violation(clause, {"word": "0x%04X" % rec["v"], "scc": rec_scc(rec["v"], rec["dbl"]), "document_with_word": rec["doc"],
+                             "document_with_padding": rec["ref"]}, {"word": rec["v"], "doubled": rec["dbl"]},
+                    "word 0x%04X between two channel-1 captions changes what the reader decodes" % rec["v"])
+    elif rec["kind"] == "w":
       lo = x % 256
       obs = {k: rec[k][lo] for k in ("cls", "ch", "row", "ind", "col", "it", "ul", "nm", "cps")}
       ctx.violation(clause, {"word": "0x%04X" % x, "observed": obs}, {"word": x, "stripped": x & 0x7F7F},
